@@ -2,11 +2,22 @@ import TempestVerif.Drv.Util
 import TempestVerif.Model.ConfigSpec
 import TempestVerif.Gen.Validate
 import TempestVerif.Gen.Ctor
+import TempestVerif.Model.CtorPath
+import TempestVerif.Gen.CtorPath
 /-
   line-protocol handlers of property C18
 
     cfg.construct <field>=<value> …   outcome of `Sampler(...)`       (options not given take `Gen.Validate.defaults`)
     cfg.eval      <field>=<value> …   outcome of `SamplerConfig(...)` (same defaults; no FunctionWrapper, no wiring)
+
+    cfg.glue      <field>=<value> … [map=0|1] [blobs=0|1]
+                                      downstream of an accepted `Sampler(...)`: `total` when no use site of the regenerated
+                                      table is undefined, else `pred definite=<Err,…> possible=<Err,…> unmodelled=<n>`;
+                                      `not-accepted:<outcome>` when the constructor does not return
+    ctx.sem       tag=<context tag> v=<value> nd=<value of n_dim> [ofield=<field> oval=<value>] [map=0|1]
+                                      Python/numpy behaviour of one context on one value: ok | err:<Err> | unmodelled | unknown-tag
+    dispatch.resample v=<value>       bound | unbound        (does the if/elif chain of Resampler.run bind the index array)
+    dispatch.kernel   v=<value>       <RunnerClass> | none   (runner mcmc.parallel_mcmc instantiates)
 
   value syntax:  i:<int>  f:<p/q>|f:inf|f:-inf|f:nan  b:0|b:1  s:<alnum*>  n (None)  c (callable)  p (Path)  o (object())
                  l:<elem>,<elem>,…   (elements in the same syntax; `L` = the nested list [0]; `l:` = [])
@@ -113,6 +124,54 @@ def handle (cmd : String) (args : List (String × String)) : Option String :=
         | .ok w =>
           "accept " ++ showStored c' ++
             (if w.clusterer then s!" mi={showV w.maxIter} mp={showV w.minPoints} th={showFV w.threshold}" else " mi=- mp=- th=-")
+  | "cfg.glue" =>
+    let flag (k : String) : Bool := args.any fun (a, b) => a == k && b == "1"
+    let ext : Model.CtorPath.Ext := ⟨flag "map", flag "blobs"⟩
+    (parseCfg? (args.filter fun (a, _) => a != "map" && a != "blobs")).map fun c =>
+      match construct Gen.Validate.spec Gen.Ctor.wiring Gen.Validate.wrapped c with
+      | .accept =>
+        let g : Cfg :=
+          match runCfg Gen.Validate.spec (wrapFields Gen.Validate.wrapped c) with
+          | .ok c' => fun f => if Gen.Validate.wrapped.contains f then c f else c' f
+          | .error _ => c
+        let p := Model.CtorPath.predict ext Gen.CtorPath.uses g
+        if p.definite.isEmpty && p.possible.isEmpty && p.unmodelled == 0 then "total"
+        else
+          let names (l : List Model.CtorPath.PyErr) : String := if l.isEmpty then "-" else ",".intercalate (l.map (·.name))
+          s!"pred definite={names p.definite} possible={names p.possible} unmodelled={p.unmodelled}"
+      | o => "not-accepted:" ++ showOutcome o
+  | "ctx.sem" => do
+    let tag ← (args.find? (·.1 == "tag")).map (·.2)
+    let v ← (args.find? (·.1 == "v")).bind fun a => parseV? a.2
+    let nd ← (args.find? (·.1 == "nd")).bind fun a => parseV? a.2
+    let base : Cfg := fun f => match Gen.Validate.defaults.find? (·.1 == f) with
+      | some (_, x) => x
+      | none => V.none
+    let c0 := base.set .n_dim nd
+    let c ← match args.find? (·.1 == "ofield"), args.find? (·.1 == "oval") with
+      | some (_, fn), some (_, ov) => do
+        let f ← (fields.find? (·.1 == fn)).map (·.2)
+        let x ← parseV? ov
+        pure (c0.set f x)
+      | _, _ => pure c0
+    let ext : Model.CtorPath.Ext := ⟨args.any fun (a, b) => a == "map" && b == "1", false⟩
+    let ctx := Model.CtorPath.ctxOf tag
+    if ctx == .unknown then pure "unknown-tag"
+    else
+      match Model.CtorPath.sem ext c ctx v with
+      | .ok => pure "ok"
+      | .err k => pure ("err:" ++ k.name)
+      | .unmodelled => pure "unmodelled"
+  | "dispatch.resample" =>
+    ((args.find? (·.1 == "v")).bind fun a => parseV? a.2).map fun v =>
+      if Model.CtorPath.resampleBound Gen.CtorPath.resampleLits Gen.CtorPath.resampleBinds Gen.CtorPath.resampleHasElse
+          Gen.CtorPath.resampleNeeded v then "bound" else "unbound"
+  | "dispatch.kernel" =>
+    ((args.find? (·.1 == "v")).bind fun a => parseV? a.2).map fun v =>
+      match Model.CtorPath.kernelRunner Gen.CtorPath.kernelBranches Gen.CtorPath.kernelElse Gen.CtorPath.kernelRunners
+          Gen.CtorPath.abstractMethods Gen.CtorPath.runnerMethods v with
+      | some cls => cls
+      | none => "none"
   | _ => none
 
 end Drv.C18
